@@ -132,7 +132,7 @@ Proof.
   apply bind_ok in H as (st_p & HA & H).
   destruct st_p as [[st1 p1] | reason]; [| inv_ok; apply fi_refl].
   assert (A1 : fq id st st1).
-  { destruct (match props with Some pr => pp_alias pr | None => None end) as [a |]; [| inv_ok; apply fq_refl].
+  { destruct (match props with Some pr => pp_alias pr | None => None end) as [a |]; [| destruct (p_topic p); inv_ok; apply fq_refl].
     destruct ((a =? 0) || (TOPIC_ALIAS_MAX <? a)); [discriminate |].
     destruct (p_topic p) as [| t0 tr].
     - destruct (al_get N.eqb a (c_aliases conn)); inv_ok. apply fq_refl.
@@ -258,9 +258,9 @@ Qed.
 
 (* ------------------------------------------------------------------ the packet handlers *)
 Lemma register_ack_key o pkid o' ok : register_ack o pkid = (o', ok) -> o_client o' = o_client o /\ o_link o' = o_link o.
-Proof. unfold register_ack. destruct (o_inflight o) as [| [[h x] y] r]; intros H; inversion H; subst; auto. Qed.
+Proof. unfold register_ack. destruct (o_inflight o) as [| [[h x] y] r]; [| destruct (pkid =? h)]; intros H; inversion H; subst; auto. Qed.
 Lemma register_pubcomp_key o pkid o' ok : register_pubcomp o pkid = (o', ok) -> o_client o' = o_client o /\ o_link o' = o_link o.
-Proof. unfold register_pubcomp. destruct (o_pubrels o) as [| h r]; intros H; inversion H; subst; auto. Qed.
+Proof. unfold register_pubcomp. destruct (o_pubrels o) as [| h r]; [| destruct (pkid =? h)]; intros H; inversion H; subst; auto. Qed.
 Lemma get_obuf_some st id o : get_obuf st id = Ok o -> slab_get (r_obufs st) id = Some o.
 Proof. unfold get_obuf. destruct (slab_get (r_obufs st) id); intros H; inversion H; reflexivity. Qed.
 Lemma handle_packet_fi st id client pk fl st' fl' brk :
@@ -359,6 +359,7 @@ Proof.
   { intros a b [G0 I0] [_ I1]. split; [exact G0 |]. intros w. destruct (N.eq_dec w 0) as [-> | Hne]; [apply I1; lia | now apply I0]. }
   assert (A1' : fi 1 st st1) by (apply fq_fi, fq_core; reflexivity).
   destruct (negb (utf8_valid _)) in H; [inv_ok; now apply ALL |].
+  match type of H with (if ?b then _ else _) = _ => destruct b end; [inv_ok; now apply ALL |].
   apply bind_ok in H as ([st3 idxs] & H3 & H). apply bind_ok in H as (st4 & H4 & H).
   apply append_all_iso in H4 as [G4 I4]. apply drain_notifications_iso in H as (G5 & I5 & _).
   pose proof (dl_matches_fq 0 _ _ _ _ H3) as D0. pose proof (dl_matches_fq 1 _ _ _ _ H3) as D1.
